@@ -414,7 +414,9 @@ def pick_box(rng, scan, fragment):
         # in gradients); a complex mixed scalar has no reading in the statement
         return g.scalar(round(rng.uniform(-1, 2), 3), is_mixed=True)
     if kind == "sqrt":
-        return g.sqrt(rng.choice([2, 0.5, 3, round(rng.uniform(0, 4), 2)]))
+        return g.sqrt(rng.choice([
+            2, 0.5, 3, round(rng.uniform(0, 4), 2), -1, -2, 1j,
+            complex(round(rng.uniform(-2, 2), 2), round(rng.uniform(-2, 2), 2))]))
     if kind == "swapqq":
         return g.SWAP
     if kind == "swapbb":
